@@ -142,6 +142,10 @@ def gen_history(seed, long=False):
         if ok_pos:
             # often right after the sessions were begun, before anybody stepped
             ops.insert(ok_pos[0] if rng.random() < 0.5 else rng.choice(ok_pos), {"inst": -1, "op": "save_state"})
+    elif rng.random() < 0.2 and len(ops) > 2:
+        # ... or at any moment, also while some instance has no session (the request may then fail; whatever it leaves in the
+        # state directory, the next server starts and the sessions that were externalised continue)
+        ops.insert(rng.randint(1, len(ops)), {"inst": -1, "op": "save_state"})
     ints = {"runspecs": {"starttime": 1, "stoptime": 30, "dt": 1}} if (int_specs == "scenario" and not long) else {}
     return {"property": PROPERTY,
             "config": {"adapter": adapter, "list_order": rng.choice(["insertion", "sorted", "reversed"]),
